@@ -38,6 +38,9 @@ def gen(tier, seed, index):
     forced = [pool[(index // 4) % len(pool)]]
     if forced == ['jpre-shape'] and rng.random() < 0.5:
         forced.append('edgeless-internal')
+    if index % 16 == 5:
+        # a long path automaton: the support needs many more sweeps than the grammar has nonterminals
+        return G.gen_chain_spec(rng), dict(cls='linear', forced=['long-chain'], typed=False)
     spec = G.gen_spec(rng, cls, forced, allow_inf=False, max_nodes=5, max_edges=5)
     return spec, dict(cls=cls, forced=forced, typed=False)
 
@@ -309,6 +312,56 @@ def cli_compare(spec, methods, index2, envv, viols, obs):
     return True
 
 
+def log_tiny_case(tier, seed, index):
+    """Log-semiring runs on grammars whose weights are so small that the REAL value underflows float32 (but not the float64
+    reference): in the log domain the stopping rule is a relative one, so every method and both dtypes must still give
+    log Z -- an implementation that detours through real space returns -inf."""
+    import torch
+    fggs = env.setup()
+    rng = G.rng_for(seed, 'C11tiny', tier, index)
+    viols = []
+    obs = dict(log_tiny_runs=0, log_tiny_compared=0)
+    feats = []
+    for j in range(3 if tier == 'quick' else 8):
+        spec = G.gen_chain_spec(rng) if j % 2 == 0 else G.gen_private_dependency_spec(rng, wdomain='real')
+        # every terminal weight times 1e-9 ... 1e-12: a derivation with >= 4 terminals has a weight below 1e-38
+        k = rng.choice([1e-9, 1e-10, 1e-12])
+        for t in spec['terminals']:
+            spec['weights'][t] = G.map_nested(spec['weights'][t], lambda x: x * k)
+        d = R.Dense(spec, 'real')
+        x, it, ok, hist = d.kleene(max_iter=3000)
+        if not ok:
+            continue
+        z = x[spec['start']].to(torch.float64)
+        if not bool((z > 0).any()) or bool((z[z > 0] < 1e-290).any()):
+            continue
+        zlog = torch.where(z > 0, z.log(), torch.full_like(z, -math.inf))
+        tiny32 = bool((z[z > 0] < 1e-38).any())
+        feats.append('real-value-underflows-float32' if tiny32 else 'real-value-representable')
+        lin = G.is_linear(spec)
+        for dtype in (torch.float32, torch.float64):
+            for method in ['fixed-point', 'newton'] + (['linear'] if lin else []):
+                fgg, _ = G.build_fgg(fggs, spec, 'log', dtype)
+                sr = G.make_semiring(fggs, 'log', dtype)
+                out = C.call(lambda: fggs.sum_product(fgg, method=method, semiring=sr, tol=1e-5 if dtype == torch.float32 else 1e-12, kmax=10000).to_dense())
+                obs['log_tiny_runs'] += 1
+                ctx = dict(semiring='log', method=method, dtype=str(dtype).replace('torch.', ''), weight_scale=k, reference=zlog.tolist())
+                if not out['ok']:
+                    viols.append(C.viol(f"exception:log-tiny:{method}:{out['exc_type']}:{out.get('where', '')}", f'sum_product raised {out["exc"]}', context=ctx, spec=spec))
+                    continue
+                if out['warnings']:
+                    continue
+                obs['log_tiny_compared'] += 1
+                got = out['value'].to(torch.float64)
+                tol = 1e-2 if dtype == torch.float32 else 1e-7
+                same_inf = torch.equal(torch.isneginf(got), torch.isneginf(zlog))
+                fin = ~torch.isneginf(zlog)
+                if not same_inf or not bool(((got[fin] - zlog[fin]).abs() <= tol * zlog[fin].abs().clamp(min=1.0)).all()):
+                    viols.append(C.viol(f'value:log-tiny:{method}:{ctx["dtype"]}', f'log Z = {C.short(got.tolist())}, reference (float64 real, then log) {C.short(zlog.tolist())}', context=ctx, spec=spec))
+    return dict(cls='log-tiny-weights', features=sorted(set(feats)), verdict='violated' if viols else 'held', violations=viols, obs=obs, nontrivial=bool(feats),
+                key=f'logtiny{index}.{seed}', evals=max(1, obs['log_tiny_runs']), sample=dict(block='Log semiring on weights scaled by 1e-9..1e-12', cases=feats))
+
+
 def cli_corner_specs(rng):
     """hand-shaped grammars on which the command-line tool has to cope with factors that take part in no derivation,
     a sum-product that depends on no factor at all, a zero-valued start symbol, nullary factors, start arity 2"""
@@ -432,6 +485,8 @@ def run_case(tier, seed, index, spec=None, meta=None):
         return sub_case(tier, seed, index, index)
     if spec is None and index == nsub:
         return cli_corner_case(tier, seed, index)
+    if spec is None and index == nsub + 1:
+        return log_tiny_case(tier, seed, index)
     if spec is None:
         spec, meta = gen(tier, seed, index)
     res = check_spec(spec, meta, index)
@@ -457,7 +512,7 @@ def finalize(tot, tier, seed):
     for m in ('fixed-point', 'newton', 'linear'):
         if tot['obs'].get('compared:' + m, 0) == 0:
             inc.append(f'method {m}: every run ended in a warning or an exception, nothing was compared')
-    for k in ('configurations', 'gradient_comparisons', 'cross_semiring_checks', 'jpre_true_runs', 'interpreter_runs', 'interpreter_results_compared', 'cli_runs', 'cli_values_compared', 'cli_gradients_compared', 'cli_corner_specs'):
+    for k in ('configurations', 'gradient_comparisons', 'cross_semiring_checks', 'jpre_true_runs', 'interpreter_runs', 'interpreter_results_compared', 'cli_runs', 'cli_values_compared', 'cli_gradients_compared', 'cli_corner_specs', 'log_tiny_compared'):
         if tot['obs'].get(k, 0) == 0:
             inc.append(f'{k} never observed')
     if tot['features'].get('levels-not-effective', 0) or tot['features'].get('subprocess-timeout', 0):
